@@ -1657,3 +1657,8 @@ mod tests {
         );
     }
 }
+
+#[cfg(all(kani, olson_sean_k_wax_verif))]
+mod verif_kani {
+    include!(concat!(env!("WAX_VERIF_DIR"), "/kani/token_mod.rs"));
+}
